@@ -1353,7 +1353,11 @@ func (self *_Compiler) compileUnmarshalText(p *_Program, vt reflect.Type, iv int
 
 	/* call the unmarshaler */
 	p.rtti(v, vt, iv)
-	self.compileUnmarshalEnd(p, vt, i)
+	if k := vt.Kind(); k == reflect.Map || k == reflect.Slice {
+		self.compileUnmarshalTextNull(p, vt, i)
+	} else {
+		self.compileUnmarshalEnd(p, vt, i)
+	}
 }
 
 func (self *_Compiler) compileUnmarshalTextPtr(p *_Program, vt reflect.Type, iv int) {
@@ -1361,7 +1365,27 @@ func (self *_Compiler) compileUnmarshalTextPtr(p *_Program, vt reflect.Type, iv 
 	p.add(_OP_is_null)
 	p.chr(_OP_match_char, '"')
 	p.rtti(_OP_unmarshal_text_p, vt, iv)
+	self.compileUnmarshalTextNull(p, vt.Elem(), i)
+}
+
+// `null` never reaches a TextUnmarshaler, it acts on the underlying kind as
+// encoding/json does: maps and slices become nil, anything else is left alone.
+func (self *_Compiler) compileUnmarshalTextNull(p *_Program, vt reflect.Type, i int) {
+	var op _Op
+	switch vt.Kind() {
+	case reflect.Map:
+		op = _OP_nil_1
+	case reflect.Slice:
+		op = _OP_nil_3
+	default:
+		p.pin(i)
+		return
+	}
+	j := p.pc()
+	p.add(_OP_goto)
 	p.pin(i)
+	p.add(op)
+	p.pin(j)
 }
 
 func (self *_Compiler) checkIfSkip(p *_Program, vt reflect.Type, c byte) int {
